@@ -4,7 +4,7 @@ PLAN = {
     'C01': dict(level='proof', engines=['sumlib', 'segnative', 'tasknative', 'beatstruct']),
     'C02': dict(level='proof', engines=['tasknative']),
     'C03': dict(level='proof', engines=['bundles']),
-    'C04': dict(level='proof', engines=['keynative', 'matchnative']),
+    'C04': dict(level='proof', engines=['keynative', 'matchnative', 'tasknative']),
     'C05': dict(level='other', engines=['matchnative'],
                 explanation='The property is about the matcher bodies (Hopcroft-Karp, hit-window search, note-matching matrices); these are checked by exhaustive '
                             'small-scope enumeration against brute-force maximum matching (bounded stand-in, the property\'s own quantifier: all graphs up to 4x5) and are '
